@@ -218,8 +218,10 @@ def under_real(root, p):
     return p == root or p.startswith(root + '/') or root == '/'
 
 
-def static_half(ctx):
+def static_half(ctx, only=None):
     ts = trees(ctx)
+    if only:
+        ts = [t for t in ts if t['name'] == only[0]]
     nreq = ctx.n(120, 1000)
     if ctx.extra.get('escalated'):
         nreq = 1000
@@ -227,7 +229,8 @@ def static_half(ctx):
     for t in ts:
         pay['trees'].append({'name': t['name'], 'ops': t['ops'], 'fe': t['fe'],
                              'bd': t['bd'], 'isdep': t['isdep'],
-                             'requests': requests_for(ctx, t, nreq)})
+                             'requests': ([only[1]] if only
+                                          else requests_for(ctx, t, nreq))})
     out = ctx.harness('drive_static.py', pay)
     ctx.log('static driver done: %d requests' % sum(len(t['requests']) for t in out['trees']))
     per_tree = {}
@@ -498,8 +501,34 @@ def access_half(ctx, gen_ok):
     return mism, n
 
 
+def replay(ctx):
+    '''./check C19 --replay F : re-execute the recorded request on the real code
+    (static: the named tree and request string; access: the whole endpoint x
+    verb x hook table, it is cheap) and evaluate the oracle.'''
+    import json
+    rp = json.load(open(ctx.replay))
+    if 'tree' in rp and 'request' in rp:
+        ctx.coq_build(['Model/Static.vo'])
+        mism, n = static_half(ctx, only=(rp['tree'], rp['request']))
+        ctx.log('replay: tree %s request %r evaluated (%d case)' % (rp['tree'], rp['request'], n))
+        if mism:
+            ctx.broken('correspondence fe._static: tree %s request %r' % mism[:2],
+                       'model expects %s\nimplementation %s' % (mism[2], mism[3]),
+                       {'source': 'correspondence'})
+    elif 'uri' in rp or 'path' in rp:
+        access_half(ctx, False)
+    else:
+        return False
+    ctx.level = 'other'   # a replay is not a proof run; the next normal run rewrites the evidence
+    ctx.note('replay', ctx.replay)
+    ctx.count(evaluations=1, nontrivial_keys=[('replay', 1), ('replay', 2)])
+    return True
+
+
 # ---------------------------------------------------------------------------
 def run(ctx):
+    if ctx.replay and replay(ctx):
+        return
     ctx.cov['rule'] = (
         'static: (directory tree with symlinks in/out, roots incl. nested/'
         'missing/symlinked/identical) x request string (directed list + every '
